@@ -17,7 +17,7 @@ var Plans = map[string][]PlanItem{
 	"C15": {{Scen: "immutability", Quick: 2000, Thorough: 200000}},
 	"C17": {{Scen: "tree", Quick: 3000, Thorough: 200000}},
 	"C12": {{Scen: "persist-fault", Quick: 160, Thorough: 12000}},
-	"C19": {{Scen: "read-fault", Quick: 240, Thorough: 16000}},
+	"C19": {{Scen: "read-fault", Quick: 640, Thorough: 40000}, {Scen: "read-fault-large", Quick: 160, Thorough: 12000}},
 	"C09": {{Scen: "concurrent", Quick: 4000, Thorough: 300000}},
 	"C14": {{Scen: "build-history", Quick: 2500, Thorough: 150000}},
 	"C10": {{Scen: "interop", Quick: 2500, Thorough: 150000}, {Scen: "golden", Quick: 400, Thorough: 2000}},
